@@ -361,7 +361,103 @@ def renumbering_on_grammar_change(ctx, facts):
                   "numbers of the *old* grammar; left factoring can move alternatives together and change the order of first "
                   "occurrence, after which `%%on Q %%enter Other` switches the scanner on another terminal"
                   % (short(path), sorted(set(NUMBERED_FIELDS) - touched) or "the lookup in the new grammar"), where(b, line))
+        renumber_direction(ctx, facts, root, fam, b, line)
     ctx.require_floor("R18.4", "grammar_replacing_functions", len(post), 1)
+
+
+THROUGH = {"std::ops::Deref::deref", "std::ops::DerefMut::deref_mut", "core::slice::iter", "std::vec::Vec::as_slice",
+           "std::iter::IntoIterator::into_iter", "std::clone::Clone::clone", "std::borrow::Borrow::borrow",
+           "std::convert::AsRef::as_ref"}
+
+
+def resolve_to_root(facts, body, place, depth=12):
+    """follow a place of a (nested) closure through transparent calls and captured variables up to the body that owns the
+    variable: returns (owner body, raw place there)"""
+    from ..dataflow import raw_place
+    while depth > 0:
+        depth -= 1
+        rp = raw_place(body, place)
+        d = single_def(body, rp[0]) if len([e for e in rp[1:] if e != "*"]) == 0 else None
+        if d and d[0] == "call" and d[3].args and (d[3].names() & THROUGH) and d[3].args[0][0] in ("c", "m"):
+            place = d[3].args[0][1]
+            continue
+        if body.kind == "Closure" and rp[0] == 1:
+            fs = [e for e in rp[1:] if isinstance(e, list) and e[0] == "f"]
+            parent = facts.body_by_path_opt(body.parent)
+            if not fs or parent is None:
+                return body, rp
+            idx = fs[0][1]
+            agg = None
+            for bi, si, p2, rv, line, mac in parent.assigns():
+                if rv[0] == "agg" and rv[1] == "closure" and rv[2] == body.path:
+                    agg = rv
+            if agg is None or idx >= len(agg[4]) or agg[4][idx][0] not in ("c", "m"):
+                return body, rp
+            body, place = parent, agg[4][idx][1]
+            continue
+        return body, rp
+    return body, place
+
+
+def renumber_direction(ctx, facts, root, fam, wb, wline):
+    """R18.4b (added after seed C21-c) direction of the renumbering: a stored number is an index into the terminal table of the
+    grammar that is being *replaced* and the new number is a position in the table of the grammar that is *installed*.  Tables are
+    the results of Cfg::get_ordered_terminals[_owned] in the replacing function: `old` = called on self.cfg before the write to
+    self.cfg, `new` = called on the new grammar (a parameter, or self.cfg after the write).  Swapped roles apply the inverse
+    permutation (right only for identities and exchanges of two terminals)."""
+    from .. import cfg as cfgmod
+    if wb is not root:
+        return
+    dom = cfgmod.Dom(root)
+    # block of the write to self.cfg
+    wblocks = [bi for bi, kind, p, l2 in __import__("pv.rules.common", fromlist=["all_places"]).all_places(root)
+               if kind == "w" and isinstance(p[-1], list) and p[-1][0] == "f" and p[-1][2] == "cfg" and p[-1][3] == GC]
+    tables = {}
+    for c in root.calls():
+        if (c.path or "").split("::")[-1] in ("get_ordered_terminals", "get_ordered_terminals_owned") and c.args:
+            rp = raw_operand_place(root, c.args[0])
+            role = None
+            if rp and rp[0] == 1 and any(isinstance(e, list) and e[0] == "f" and e[2] == "cfg" and e[3] == GC for e in rp[1:]):
+                before = all(dom.dominates(c.bb, w) and c.bb != w for w in wblocks)
+                after = any(dom.dominates(w, c.bb) for w in wblocks)
+                role = "old" if before else ("new" if after else None)
+            elif rp and 2 <= rp[0] <= root.nargs:
+                role = "new"
+            if role:
+                tables[c.dest[0]] = role
+    if len(set(tables.values())) < 2:
+        return      # not the two-table idiom; R18.4 proper has judged presence
+    uses = []
+    for fb in fam:
+        for c in fb.calls():
+            last = (c.path or "").split("::")[-1]
+            if "TerminalKind" not in (c.self_ty or ""):
+                continue
+            if last in ("get", "index", "get_unchecked", "nth") and c.args:
+                kind = "indexed"
+                recv = c.args[0]
+            elif last in ("position", "rposition", "find", "find_map") and c.args:
+                kind = "searched"
+                recv = c.args[0]
+            else:
+                continue
+            if recv[0] not in ("c", "m"):
+                continue
+            owner, rp = resolve_to_root(facts, fb, recv[1])
+            if owner is root and rp[0] in tables:
+                uses.append((kind, tables[rp[0]], fb, c))
+    n = 0
+    for kind, role, fb, c in uses:
+        n += 1
+        want = "old" if kind == "indexed" else "new"
+        ctx.check(role == want, "R18.4", "%s|renumber-direction|%s" % (short(root.path), kind),
+                  "the %s table is the %s grammar's" % (kind, role),
+                  "%s renumbers in the wrong direction: the stored token number is %s the terminal table of the %s grammar (must be "
+                  "the %s one): the inverse permutation is applied, %%skip / %%on entries end up on other terminals whenever the "
+                  "transformation rotates three or more terminals" % (short(root.path), "used as an index into" if kind == "indexed"
+                                                                      else "looked up by position in", role, want), where(fb, c.line))
+    if n == 0:
+        ctx.info("R18.4", "renumber direction: no indexed / searched use of the two terminal tables found in %s" % short(root.path))
 
 
 def no_terminal_keyed_maps(ctx, facts):
